@@ -24,7 +24,7 @@ RULE = (
     "_Atomic(T) beyond the simple form (F12*)."
 )
 ASSUMPTIONS = ["gcc 12 is deterministic for identical token sequences; equality of -S output is the meaning of 'compiles to exactly the same code'"]
-QUARANTINE = ()
+QUARANTINE = ("lit.escape_then_digit_across_pieces",)  # F39
 
 
 def canon(text):
